@@ -254,3 +254,69 @@ func H_C20_http_dirs() {
 		}
 	}
 }
+
+// ---- the route handler: from the URL's {path...} value to the path that is looked up ----
+
+var vRawPath string
+var vGotPath path.Path
+var vGotKind int
+
+func vPathValue(r *http.Request, name string) string {
+	if name == "hash" {
+		return "0000000000000000000000000000000000000000"
+	}
+	return vRawPath
+}
+func vHashParse(s string) hash.Hash { return hash.Hash(make([]byte, 20)) }
+func vRecFile(w http.ResponseWriter, r *http.Request, t *tor.Torrent, p path.Path) {
+	vGotPath, vGotKind = p, 1
+}
+func vRecDirectory(w http.ResponseWriter, r *http.Request, t *tor.Torrent, p path.Path) {
+	vGotPath, vGotKind = p, 2
+}
+func vRecPlaylist(w http.ResponseWriter, r *http.Request, t *tor.Torrent, p path.Path) {
+	vGotPath, vGotKind = p, 3
+}
+
+// H_C20_handler_path: the real torHandler with the {path...} value of the request an arbitrary
+// string of <= 4 bytes (net/http has already unescaped it once): the path handed to the file /
+// directory / playlist view consists of exactly the bytes of that value, cut at the '/' bytes -
+// nothing is decoded a second time, dropped or added - so a name is looked up as it is spelled.
+func H_C20_handler_path() {
+	tor.VRegister(make([]byte, 20), "t", []tor.Torfile{{Path: path.Path{"a"}, Length: 10}}, 11)
+	vRawPath = vString("raw", 4)
+	vGotPath, vGotKind = nil, 0
+	r := &http.Request{Method: "GET", Host: "localhost:8088"}
+	if vBool("playlist") {
+		r.Form = map[string][]string{"playlist": {""}}
+	}
+	torHandler(&vRW{}, r)
+	if vGotKind == 0 {
+		vReach("not-served")
+		return
+	}
+	vReach("served")
+	raw := vRawPath
+	j := 0
+	for j < len(raw) && raw[j] == '/' {
+		j++
+	}
+	for k, comp := range vGotPath {
+		if k > 0 {
+			vAssert(j < len(raw) && raw[j] == '/', "components are separated where the request's path has a '/'")
+			j++
+		}
+		for b := 0; b < len(comp); b++ {
+			vAssert(j < len(raw), "the looked-up path has no more bytes than the request's path")
+			if j >= len(raw) {
+				return
+			}
+			vAssert(comp[b] == raw[j] && comp[b] != '/', "the looked-up path is spelled exactly as the request's path")
+			j++
+		}
+	}
+	for j < len(raw) {
+		vAssert(raw[j] == '/', "nothing of the request's path is dropped")
+		j++
+	}
+}
